@@ -187,7 +187,7 @@ class RM:
             return False
         if bt == "calculate":
             return False
-        has_text = bool(texts(r.cells, "label") or texts(r.cells, "hint"))
+        has_text = bool(texts(r.cells, "label") or texts(r.cells, "hint") or any(texts(r.cells, m) for m in MEDIA))  # a picture or a sound is something to show too
         if (r.cells.get("calculation") or r.cells.get("trigger")) and not has_text:
             return False
         return True
